@@ -11,6 +11,7 @@ import (
 	"context"
 	"io"
 	"net/http"
+	"time"
 
 	zz "github.com/ogen-go/ogen/internal/zzverif"
 	"github.com/ogen-go/ogen/middleware"
@@ -117,6 +118,10 @@ func HGetO(part, l1, l2 int) {
 		core = l1 > 0 && l2 > 0
 	case 4:
 		p.K = int(zz.Int8())
+	case 5: // an instant in unix-milli form far outside the int64-nanosecond window (years beyond 2262)
+		ms := zz.Int64()
+		zz.Assume(zz.And(ms >= 10000000000000, ms <= 99999999999999))
+		p.Tm = NewOptUnixMilli(time.UnixMilli(ms))
 	case 1:
 		if l1&1 != 0 {
 			p.Zi = NewOptInt(int(zz.Int8()))
@@ -197,6 +202,7 @@ func HGetO(part, l1, l2 int) {
 	zz.Assert(g.Cz == wantCz, "an absent boolean cookie with default false arrives as set to false; a supplied one as supplied")
 	zz.Assert(g.XQ == p.XQ, "a required integer header arrives as supplied")
 	zz.Assert(g.E == p.E, "an optional enum query parameter arrives as supplied")
+	zz.Assert(g.Tm.Set == p.Tm.Set && (!p.Tm.Set || g.Tm.Value.UnixMilli() == p.Tm.Value.UnixMilli()), "a unix-milli query parameter arrives as the instant supplied")
 	// middleware sees what the handler sees
 	mx, okx := mw.params[middleware.ParameterKey{Name: "x", In: openapi.LocationPath}].(string)
 	my, oky := mw.params[middleware.ParameterKey{Name: "y", In: openapi.LocationPath}].(string)
